@@ -72,6 +72,7 @@ def _exec_plain(scn, order_prefix):
             return idx
 
         r = CrawlRun(cs.site_desc(scn), cs.argv(scn, db, d), concurrency=scn['N'], db_path=db, chooser=chooser, cwd=d)
+        r.stmt_points = bool(scn.get('stmt_points'))
         r.split_answers = bool(scn.get('split'))
         r.max_requests = max(400, 3 * len(scn['urls']))
         ev = r.execute()
@@ -94,6 +95,7 @@ def _exec_crash(scn, crash_at):
                 r = CrawlRun(cs.site_desc(scn), cs.argv(scn, db, d), concurrency=scn['N'], db_path=db,
                              trace_file=tf, crash_at=crash_at, run_no=1, cwd=d)
                 r.max_requests = max(400, 3 * len(scn['urls']))
+                r.stmt_points = bool(scn.get('stmt_points'))
                 r.execute()
             except BaseException:
                 traceback.print_exc()
@@ -106,6 +108,7 @@ def _exec_crash(scn, crash_at):
             return dict(ev=ev1, rows=[], crashed=False, outcome='nocrash')
         r2 = CrawlRun(cs.site_desc(scn), cs.argv(scn, db, d), concurrency=scn['N'], db_path=db, run_no=2, cwd=d)
         r2.max_requests = max(400, 3 * len(scn['urls']))
+        r2.stmt_points = bool(scn.get('stmt_points'))
         # what the database holds after the kill (the last commit may not have had its event logged)
         n = len(scn['urls'])
         sync = {'e': 'dbsync', 'st': ['none'] * n, 'tr': [0] * n, 'lv': [0] * n}
